@@ -57,12 +57,13 @@ def units(tier: str) -> List[Any]:
     for t in F.hist_skeletons(tier):
         out.append((t, False))
         out.append((t, "dot"))
+        # the same tree with keys that are unique among siblings only: every region has children named 'a', 'b', ...
+        out.append((t, False, "local"))
     return out
 
 
-def build_cfg(tree, with_default: bool):
-    nodes = F.flatten(tree)
-    cfg, nodes, events = F.universal_config(tree, reenter_all=False)
+def build_cfg(tree, with_default, naming: str = "prefix"):
+    cfg, nodes, events = F.universal_config(tree, reenter_all=False, naming=naming)
     defaults: Dict[str, str] = {}
     if with_default:
         for n in nodes:
@@ -96,10 +97,11 @@ def expected_under(byid, P: F.N, h: F.N, mem: Optional[frozenset], defaults) -> 
 
 
 def run_unit(unit):
-    tree, with_default = unit
-    cfg, nodes, events, defaults = build_cfg(tree, with_default)
+    tree, with_default = unit[:2]
+    naming = unit[2] if len(unit) > 2 else "prefix"
+    cfg, nodes, events, defaults = build_cfg(tree, with_default, naming)
     byid = {n.id: n for n in nodes}
-    label = F.tree_str(tree) + ("" if not with_default else "+defaults" if with_default is True else f"+defaults[{with_default}-spelling]")
+    label = F.tree_str(tree) + ("" if not with_default else "+defaults" if with_default is True else f"+defaults[{with_default}-spelling]") + ("" if naming == "prefix" else f" (keys {naming})")
     res = dict(states=0, transitions=0, executions=0, distinct=[], violations=[], samples=[], caps=[])
     hist_parents = sorted({n.parent.id for n in nodes if n.is_history})
     judged = 0
@@ -145,7 +147,7 @@ def run_unit(unit):
             viol.append(dict(signature=sig, clause=clause,
                              what=f"{engine}: {clause}: {detail}; after {hist + [ev]} on {label}",
                              size=len(hist) + len(nodes) * 10,
-                             replay=dict(tree=tree, with_default=with_default, engine=engine, hist=hist + [ev])))
+                             replay=dict(tree=tree, with_default=with_default, naming=naming, engine=engine, hist=hist + [ev])))
 
         def on_state(d, hist):
             return F.legal_configuration(byid, d.observe()[0]) is None
@@ -231,7 +233,7 @@ def run_unit(unit):
 def replay(payload):
     from .c01 import _tuplify
 
-    res = run_unit((_tuplify(payload["tree"]), payload["with_default"]))
+    res = run_unit((_tuplify(payload["tree"]), payload["with_default"], payload.get("naming", "prefix")))
     out = [v for v in res["violations"] if v["replay"]["hist"] == payload["hist"] and v["replay"]["engine"] == payload["engine"]]
     for v in out:
         print("  ", v["what"])
